@@ -252,6 +252,12 @@ func (m *Machine) exec(st ast.Stmt, o *Outcome) []*Outcome {
 			o.Exit = "return"
 			return []*Outcome{o}
 		}
+		if m.inlineDepth > 0 && m.retTok > 0 && len(x.Results) == 1 {
+			// the helper computes the token id: tok = lex.helper(…)
+			ev("tok", types.ExprString(x.Results[0]))
+			o.Exit = "return"
+			return []*Outcome{o}
+		}
 		return undec("return")
 	case *ast.AssignStmt:
 		if len(x.Lhs) == 2 { // s, err := …
@@ -280,6 +286,22 @@ func (m *Machine) exec(st ast.Stmt, o *Outcome) []*Outcome {
 			ev("act", types.ExprString(x.Rhs[0]))
 			return []*Outcome{o}
 		case "tok":
+			if call, ok := unparen(x.Rhs[0]).(*ast.CallExpr); ok {
+				if fd := m.helperDecl(call); fd != nil && m.inlineDepth < 3 && len(fd.Recv.List) == 1 && len(fd.Recv.List[0].Names) == 1 && fd.Recv.List[0].Names[0].Name == "lex" {
+					// a method of the scanner that returns the token id: its returns are the assignments
+					m.inlineDepth++
+					m.retTok++
+					outs := m.execList(fd.Body.List, []*Outcome{o})
+					m.retTok--
+					m.inlineDepth--
+					for _, r := range outs {
+						if r.Exit == "return" {
+							r.Exit = ""
+						}
+					}
+					return outs
+				}
+			}
 			ev("tok", types.ExprString(x.Rhs[0]))
 			return []*Outcome{o}
 		case "lex.stack[lex.top]":
